@@ -60,7 +60,9 @@ fn all_families() -> Vec<Box<dyn Family>> {
 }
 
 fn all_families_base() -> Vec<Box<dyn Family>> {
-  vec![Box::new(c08::C08), Box::new(c18::C18), Box::new(c09::C09), Box::new(c12::C12), Box::new(thr_ops::C19Ops), Box::new(thr_ops::C19Subjects), Box::new(thr_ops::C11), Box::new(timed::C16), Box::new(timed::C15), Box::new(c01::C01), Box::new(c05::C05Seq), Box::new(c05::C05Thr), Box::new(c06::C06), Box::new(c17::C17), Box::new(c14::C14), Box::new(c10::C10), Box::new(c13::C13), Box::new(c13::C13Thr), Box::new(c03::C03), Box::new(c03::C03Rsg), Box::new(c04::C04Travel), Box::new(c04::C04Handlers)]
+  vec![Box::new(c08::C08), Box::new(c18::C18), Box::new(c09::C09), Box::new(c12::C12), Box::new(thr_ops::C19Ops), Box::new(thr_ops::C19Subjects), Box::new(thr_ops::C11), Box::new(timed::C16), Box::new(timed::C15), Box::new(c01::C01), Box::new(c05::C05Seq), Box::new(c05::C05Thr), Box::new(c06::C06), Box::new(c17::C17), Box::new(c14::C14), Box::new(c10::C10), Box::new(c13::C13), Box::new(c13::C13Thr), Box::new(c03::C03), Box::new(c03::C03Rsg), Box::new(c04::C04Travel), Box::new(c04::C04Handlers),
+    Box::new(Only { inner: Box::new(thr_ops::C11), name: "c03-amb-threads", pred: |w| w.s("op") == "amb" }),
+    Box::new(Only { inner: Box::new(c12::C12), name: "c10-replay-subject-threads", pred: |w| w.s("subject") == "replay" })]
 }
 
 fn spec_for(prop: &str) -> Option<CheckSpec> {
@@ -91,6 +93,8 @@ fn spec_for(prop: &str) -> Option<CheckSpec> {
       families: vec![
         FamilySpec { fam: Box::new(c03::C03), quick_runs: 400_000, thorough_runs: 6_000_000 },
         FamilySpec { fam: Box::new(c03::C03Rsg), quick_runs: 20_000, thorough_runs: 200_000 },
+        // "amb mirrors only the first source to signal" also when the sources signal from different threads
+        FamilySpec { fam: Box::new(Only { inner: Box::new(thr_ops::C11), name: "c03-amb-threads", pred: |w| w.s("op") == "amb" }), quick_runs: 30_000, thorough_runs: 600_000 },
       ],
       quick_cap_s: 60,
       thorough_cap_s: 900,
@@ -199,7 +203,12 @@ fn spec_for(prop: &str) -> Option<CheckSpec> {
         "where the statement is silent only weak invariants are asserted: producer calls after the terminal of a Behavior/Replay/Async subject, and AsyncSubject observers that subscribe after a terminal".into(),
         "HashMap iteration order is perturbed per run (hash-order fault)".into(),
       ],
-      families: vec![FamilySpec { fam: Box::new(c10::C10), quick_runs: 400_000, thorough_runs: 6_000_000 }],
+      families: vec![
+        FamilySpec { fam: Box::new(c10::C10), quick_runs: 400_000, thorough_runs: 6_000_000 },
+        // "a ReplaySubject first hands a new subscriber every past item in order followed by the stored
+        // terminal" also while another thread pushes / completes during the hand-over
+        FamilySpec { fam: Box::new(Only { inner: Box::new(c12::C12), name: "c10-replay-subject-threads", pred: |w| w.s("subject") == "replay" }), quick_runs: 40_000, thorough_runs: 800_000 },
+      ],
       quick_cap_s: 60,
       thorough_cap_s: 900,
     }),
